@@ -16,6 +16,7 @@ import (
 	"path/filepath"
 	"regexp"
 	"strconv"
+	"sort"
 	"strings"
 
 	"github.com/CrowdStrike/csproto/prototest"
@@ -366,7 +367,7 @@ func pathArg(paths [][]int) string {
 	return strings.Join(ps, ",")
 }
 
-func dumpOne(bin, dir string, data []byte, expand, strs [][]int, how string) {
+func dumpOne(bin, dir string, data []byte, expand, strs [][]int, how string, order ...int) {
 	e := &ev{C: "dump", Buf: tr.Bytes(data), Expand: expand, Strings: strs, How: how}
 	file := filepath.Join(dir, "msg.bin")
 	if err := os.WriteFile(file, data, 0o644); err != nil {
@@ -374,16 +375,37 @@ func dumpOne(bin, dir string, data []byte, expand, strs [][]int, how string) {
 	}
 	var args []string
 	// several -expand flags and comma lists are equivalent; alternate
-	if len(expand) > 1 && rng.Intn(2) == 0 {
-		for _, p := range expand {
-			args = append(args, "-expand", pathArg([][]int{p}))
+	// a flag may be repeated, in any order (deepest path first, shallowest first, shuffled), or carry a comma list, or both
+	flagArgs := func(name string, paths [][]int) {
+		if len(paths) == 0 {
+			return
 		}
-	} else if len(expand) > 0 {
-		args = append(args, "-expand", pathArg(expand))
+		ps := append([][]int{}, paths...)
+		ord := rng.Intn(4)
+		if len(order) > 0 {
+			ord = order[0]
+		}
+		switch ord {
+		case 0: // one comma list
+			args = append(args, name, pathArg(ps))
+			return
+		case 1: // deepest first
+			sort.SliceStable(ps, func(i, j int) bool { return len(ps[i]) > len(ps[j]) })
+		case 2: // shuffled
+			rng.Shuffle(len(ps), func(i, j int) { ps[i], ps[j] = ps[j], ps[i] })
+		default: // as collected (parents before children)
+		}
+		for i := 0; i < len(ps); i++ {
+			if i+1 < len(ps) && rng.Intn(4) == 0 { // two paths in one occurrence
+				args = append(args, name, pathArg(ps[i:i+2]))
+				i++
+				continue
+			}
+			args = append(args, name, pathArg(ps[i:i+1]))
+		}
 	}
-	if len(strs) > 0 {
-		args = append(args, "-strings", pathArg(strs))
-	}
+	flagArgs("-expand", expand)
+	flagArgs("-strings", strs)
 	var cmd *exec.Cmd
 	switch how {
 	case "file":
@@ -561,6 +583,15 @@ func famDump(bin string, iters int) {
 			how = "file" // with no data on stdin the tool (by design) asks for input
 		}
 		dumpOne(bin, dir, data, expand, strp, how)
+		// every path, each in its own flag occurrence, deepest first and shuffled (the order of repeated flags must not matter)
+		deep := false
+		for _, p := range msgs {
+			deep = deep || len(p) > 1
+		}
+		if deep && it%2 == 0 {
+			dumpOne(bin, dir, data, msgs, strs, how, 1)
+			dumpOne(bin, dir, data, msgs, strs, hows[(it+1)%3], 2)
+		}
 		// malformed variants: truncation, a bad wire type, an over-long length
 		if len(data) > 1 && it%3 == 0 {
 			mb := append([]byte{}, data...)
